@@ -12139,6 +12139,11 @@ tsk_table_collection_link_ancestors(tsk_table_collection_t *self, tsk_id_t *samp
         ret = tsk_trace_error(TSK_ERR_CANT_PROCESS_EDGES_WITH_METADATA);
         goto out;
     }
+    /* The edges are followed by the node IDs they store */
+    ret = (int) tsk_table_collection_check_integrity(self, 0);
+    if (ret != 0) {
+        goto out;
+    }
 
     ret = ancestor_mapper_init(
         &ancestor_mapper, samples, num_samples, ancestors, num_ancestors, self, result);
